@@ -2,6 +2,7 @@ import Proofs.SeqSteps
 import Proofs.SeqStore2
 import Proofs.SeqDemo
 import Proofs.SeqRecover
+import Model.S3Upload
 /-! C04 — Object storage is always a complete, exact rendering of the leaf sequence.
 
 Exactness is enforced by the acceptor itself: `Seq.step` accepts a tile / bundle / checkpoint upload
@@ -122,5 +123,47 @@ theorem C04_object_shapes {s : Sys} (r : Reachable s) (ht : s.tampered = false) 
     (∀ t, s.store (.legacyStaging t) = none) :=
   let h4 := inv4_reachable r ht
   ⟨h4.ckShape, h4.ckSome, h4.stagedNe, h4.legacy⟩
+
+end C04
+
+/-! ### The production backend keeps the contract the model assumes (S3Backend.Upload) -/
+namespace C04
+open S3Upload
+
+/-- **Upload returned nil ⇒ stored.** Whatever the two PutObject calls of a hedged upload did, in whatever order their
+    requests reached S3, and whether or not the hedge's result was the one reported: if `Upload` returns nil then one of
+    the requests was stored, so the bucket holds the uploaded bytes under the key — for every prior content.
+    (Assumes only that a PutObject call returning nil had a request answered 200.) -/
+theorem C04_s3_upload_ok_means_stored (main : Call) (started reported : Option Call) (all : List Req) (pre : Bool)
+    (hm : main.Honest) (hh : ∀ h, started = some h → h.Honest)
+    (hrep : ∀ h, reported = some h → started = some h)      -- a reported hedge result is the started hedge's
+    (hall : IsAllReqs main started all)
+    (hok : uploadOk main reported = true) : heldAfter pre all = .data := by
+  have hst : Req.stored ∈ all := by
+    cases reported with
+    | none => exact (hall _).2 (.inl (hm hok))
+    | some h => exact (hall _).2 (.inr ⟨h, hrep h rfl, hh h (hrep h rfl) hok⟩)
+  simp [heldAfter, hst]
+
+/-- the observable form the driver evaluates: an admissible nil return leaves the data in the bucket -/
+theorem C04_s3_admissible_ok_stored (reqs : List Req) (cancelled pre : Bool)
+    (h : admissible reqs cancelled true = true) : heldAfter pre reqs = .data := by
+  simp only [admissible, if_true] at h
+  unfold heldAfter
+  rw [if_pos h]
+
+/-- … and a caller that hung up (context cancelled) is never by itself a reason to report success: with no stored request
+    no return of nil is admissible (the change that maps `context.Canceled` to nil is refused here) -/
+theorem C04_s3_cancel_is_not_success (reqs : List Req) (h : Req.stored ∉ reqs) : admissible reqs true true = false := by
+  simp [admissible, h]
+
+/-- when nothing is stored the bucket keeps what it had -/
+theorem C04_s3_failed_upload_keeps_prior (reqs : List Req) (pre : Bool) (h : Req.stored ∉ reqs) :
+    heldAfter pre reqs = (if pre then .pre else .none) := by
+  simp [heldAfter, h]
+
+-- non-vacuity: a hedged upload whose main request is aborted by the winning hedge
+example : uploadOk ⟨false, [.aborted]⟩ (some ⟨true, [.stored]⟩) = true ∧ heldAfter true [.aborted, .stored] = .data := by decide
+example : admissible [.aborted] true false = true ∧ admissible [.aborted] true true = false := by decide
 
 end C04
